@@ -27,6 +27,14 @@ Definition ovr (l : list (string * val)) : dict := fold_left (fun d kv => dset d
 Definition Vs := VStr.
 Definition Vi := VInt.
 Definition C (t : Z) (m : string) (a : list val) : Z * call := (t, Call m a).
+(* Event(dict, defaults): the exception class, or Event.type (the other attributes are compared through the device calls) *)
+Definition event_agrees (defs d : dict) (exp_exn : option string) (exp_type : val) : option bool :=
+  match resolve defs d, exp_exn with
+  | Unmodelled, _ => None
+  | Raise c, Some c' => Some (String.eqb c c')
+  | Ok e, None => Some (val_eqb (e_type e) exp_type)
+  | _, _ => Some false
+  end.
 """
 
 TYPE_KEYS = ["action", "patch", "control", "program_change", "osc_address", "synth"]   # then note | degree
@@ -794,7 +802,7 @@ def generate(run, scales, note_names, n_total):
         add(g.finish([ev], defaults), "malformed", ["malformed." + kind])
     # D: a pattern that generates 2-3 dictionaries; pattern-valued defaults advance once per event
     for _ in range(n_d):
-        k = r.choice([2, 2, 3])
+        k = r.choice([1, 2, 2, 3])
         evs = []
         for _j in range(k):
             if r.random() < 0.7:
@@ -882,8 +890,8 @@ def run_cases(run, cases, scales, note_names):
         me = model_events(c)
         d0 = me[0][1] if c["mode"] == "pdict" else c["direct"]
         evr = res["event"]
-        t1 = "resolve_agrees %s %s %s %s" % (defs_lit(me[0][0]), dlit(d0), optlit(evr.get("raise"), slit),
-                                             vlit(evr["view"]) if "view" in evr else "VNone")
+        t1 = "event_agrees %s %s %s %s" % (defs_lit(me[0][0]), dlit(d0), optlit(evr.get("raise"), slit),
+                                           vlit(evr["view"]["t"][0]) if "view" in evr else "VNone")
         evs = lst(["(%s, %s)" % (defs_lit(dfl), dlit(d)) for dfl, d in me])
         t2 = "track_agrees %d %s %s %s %s %s" % (c["tpb"], blit(c["muted"]), natlit(c["nticks"]), evs,
                                                  optlit(res["raise"], slit), trace_lit(res["trace"]))
